@@ -425,6 +425,27 @@ pub struct LazySeq {
     meta: Py<PyAny>,
 }
 
+impl LazySeq {
+    /// Acquire the state lock without blocking on it while holding the GIL.
+    ///
+    /// The lock is held across the call to the generator function. If that function
+    /// releases the GIL (I/O, sleeping, a thread switch) and another thread touches
+    /// the same LazySeq, blocking on the mutex with the GIL held would deadlock the
+    /// whole interpreter: the holder needs the GIL to finish. Waiters therefore
+    /// release the GIL between attempts.
+    fn acquire(
+        &self,
+        py: Python,
+    ) -> parking_lot::ReentrantMutexGuard<'_, RefCell<LazySeqState>> {
+        loop {
+            if let Some(guard) = self.lock.try_lock() {
+                return guard;
+            }
+            py.detach(std::thread::yield_now);
+        }
+    }
+}
+
 #[pymethods]
 impl LazySeq {
     #[new]
@@ -469,7 +490,7 @@ impl LazySeq {
     // before calling `(seq ...)` on the result, which is cached.
 
     fn _compute_seq(&self, py: Python) -> PyResult<Py<PyAny>> {
-        let mutex = self.lock.lock();
+        let mutex = self.acquire(py);
         let state = mutex.borrow();
         match state.deref() {
             LazySeqState::Computing => return Ok(py.None()),
@@ -507,17 +528,27 @@ impl LazySeq {
         drop(state);
 
         if let Some(gen) = genfn {
-            let obj = gen.call0(py)?;
-            let mut state = mutex.borrow_mut();
-            *state = LazySeqState::Computed(obj.clone_ref(py));
-            Ok(obj.clone_ref(py))
+            match gen.call0(py) {
+                Ok(obj) => {
+                    let mut state = mutex.borrow_mut();
+                    *state = LazySeqState::Computed(obj.clone_ref(py));
+                    Ok(obj.clone_ref(py))
+                }
+                Err(e) => {
+                    // Restore the generator so the exception does not silently turn
+                    // this into an empty sequence for every later consumer.
+                    let mut state = mutex.borrow_mut();
+                    *state = LazySeqState::Initialized(gen);
+                    Err(e)
+                }
+            }
         } else {
             panic!("Expected a reference to a generator function!");
         }
     }
 
     fn seq(&self, py: Python) -> PyResult<Py<PyAny>> {
-        let mutex = self.lock.lock();
+        let mutex = self.acquire(py);
         let state = mutex.borrow();
         if let LazySeqState::Realized(seq) = state.deref() {
             return Ok(seq.as_ref().clone_ref(py));
@@ -613,7 +644,7 @@ impl LazySeq {
 
     #[getter(is_realized)]
     fn is_realized<'py>(&self, py: Python<'py>) -> PyResult<Borrowed<'py, 'py, PyBool>> {
-        let mutex = self.lock.lock();
+        let mutex = self.acquire(py);
         let state = mutex.deref().borrow();
         Ok(PyBool::new(py, matches!(*state, LazySeqState::Realized(_))))
     }
